@@ -141,3 +141,71 @@ pub fn c08_single_pixel(seed: u64, contents: u64) -> Phase {
         wall_cap_s: 0,
     }
 }
+
+/// Every data codeword stream of length <= 2, and every stream of length 3 (4 in the thorough tier)
+/// whose first codeword is drawn from `heads`, straight into decode_data / decode_str.
+pub fn c05_short_streams(full3: bool, len4_heads: bool) -> Phase {
+    const HEADS: [u8; 12] = [230, 231, 232, 235, 236, 237, 238, 239, 240, 241, 129, 66];
+    let n0: u64 = 1 + 256 + 65536;
+    let n3: u64 = if full3 { 256 * 65536 } else { HEADS.len() as u64 * 65536 };
+    let n4: u64 = if len4_heads { 7 * 256 * 65536 } else { 0 };
+    let total = n0 + n3 + n4;
+    let make = move |_ctx: &Ctx, i: u64| -> Trace {
+        let data: Vec<u8> = if i == 0 {
+            vec![]
+        } else if i < 257 {
+            vec![(i - 1) as u8]
+        } else if i < n0 {
+            let r = i - 257;
+            vec![(r >> 8) as u8, r as u8]
+        } else if i < n0 + n3 {
+            let r = i - n0;
+            let head = if full3 { (r >> 16) as u8 } else { HEADS[(r >> 16) as usize] };
+            vec![head, (r >> 8) as u8, r as u8]
+        } else {
+            let r = i - n0 - n3;
+            // latch, then three free codewords
+            let head = [230u8, 231, 238, 239, 240, 241, 235][(r >> 24) as usize];
+            vec![head, (r >> 16) as u8, (r >> 8) as u8, r as u8]
+        };
+        Trace { prop: "C05".into(), producer: Producer::Stream { data }, faults: vec![] }
+    };
+    Phase {
+        source: Source::Sweep {
+            name: format!("sweep_all_short_streams{}{}", if full3 { "_len3_full" } else { "_len3_heads" }, if len4_heads { "_len4_latched" } else { "" }),
+            prop: "C05".into(),
+            make: Box::new(make),
+        },
+        runs: total,
+        wall_cap_s: 0,
+    }
+}
+
+/// Every (length, width) pair of small pixel arrays x three fill patterns: the geometry clauses of C08
+/// (width 0, ragged length, non-catalogue dimensions) and the parser's totality (C05) by enumeration.
+pub fn small_geometry(prop: &'static str, max_len: u64, max_width: u64) -> Phase {
+    let total = (max_len + 1) * (max_width + 1) * 3;
+    let make = move |_ctx: &Ctx, i: u64| -> Trace {
+        let fill = i % 3;
+        let r = i / 3;
+        let width = r % (max_width + 1);
+        let len = r / (max_width + 1);
+        let bits: Vec<bool> = (0..len)
+            .map(|j| match fill {
+                0 => false,
+                1 => true,
+                _ => j % 2 == 0,
+            })
+            .collect();
+        Trace {
+            prop: prop.into(),
+            producer: Producer::Stream { data: vec![] },
+            faults: vec![Fault::new("geo_replace", Op::GeoReplace { bits, w: width as u32 })],
+        }
+    };
+    Phase {
+        source: Source::Sweep { name: format!("sweep_small_geometry_len{}_w{}", max_len, max_width), prop: prop.into(), make: Box::new(make) },
+        runs: total,
+        wall_cap_s: 0,
+    }
+}
